@@ -1,5 +1,1448 @@
-//! (stub; being written)
+//! C08: printed scripts parse back to the same script at every line width.
+//!
+//! Two AST sources: (P) `parse(text)` for generated texts over the statement/expression/meta grammar,
+//! (D) `decompile(binary)` for small binaries whose argument bit patterns are injected with `@blob=`.
+//! The structural comparison is done by an independent canonical walker over truth's public AST types
+//! (spans, node/res/loop ids, language tags, cached masks and comments are not part of the script).
+
 #![allow(dead_code)]
-use crate::common::Report;
-pub fn run(tier: &str) -> Report { Report::new("C08", tier, "model_checking") }
-pub fn replay(_detail: &serde_json::Value) -> i32 { 2 }
+
+use std::collections::{BTreeMap, BTreeSet};
+use serde_json::{json, Value};
+
+use truth::ast::{self, Expr, Item, Meta, StmtKind};
+
+use crate::common::*;
+use crate::drive::{self, CompileOpts, DecompOpts, Kind, Tool};
+
+const QUICK_WIDTHS: [usize; 10] = [1, 2, 10, 20, 40, 79, 80, 99, 100, 200];
+
+// =============================================================================================
+// canonical form (independent structural walk)
+
+#[derive(Default, Clone, Debug)]
+struct Flags { neg_lit: bool, switch: bool, nested_unary: bool, nonfinite: bool }
+
+#[derive(Clone, Copy, PartialEq)]
+enum Lit { I(i32), F(u32) }
+
+/// `fold = true`: literal signs are normalised (`-` applied to a literal folds, recursively), the int display
+/// format is dropped, and the builtin constant `INF` is identified with the literal it denotes.
+/// `fold = false`: faithful key of the AST (used to count distinct ASTs).
+struct Canon { s: String, fold: bool, fl: Flags }
+
+fn fold_lit(e: &Expr) -> Option<Lit> {
+    match e {
+        Expr::LitInt { value, .. } => Some(Lit::I(*value)),
+        Expr::LitFloat { value } => Some(Lit::F(value.to_bits())),
+        Expr::UnOp(op, inner) if op.value == ast::UnOpKind::Neg => match fold_lit(&inner.value)? {
+            Lit::I(v) => Some(Lit::I(v.wrapping_neg())),
+            Lit::F(b) => Some(Lit::F(b ^ 0x8000_0000)),
+        },
+        Expr::Var(v) => match (&v.value.ty_sigil, &v.value.name) {
+            (None, ast::VarName::Normal { ident, .. }) if ident.as_str() == "INF" => Some(Lit::F(0x7f80_0000)),
+            _ => None,
+        },
+        _ => None,
+    }
+}
+
+impl Canon {
+    fn new(fold: bool) -> Canon { Canon { s: String::new(), fold, fl: Flags::default() } }
+    fn p(&mut self, x: &str) { self.s.push_str(x); }
+    fn string(&mut self, x: &str) { self.s.push_str(&format!("{:?}", x)); }
+    fn int(&mut self, v: i32) { self.s.push_str(&format!("i:{v}")); }
+
+    fn file(&mut self, f: &ast::ScriptFile) {
+        self.p("(file (mapfiles");
+        for m in &f.mapfiles { self.p(" "); self.string(&m.string); }
+        self.p(") (image_sources");
+        for m in &f.image_sources { self.p(" "); self.string(&m.string); }
+        self.p(")");
+        for it in &f.items { self.p("\n "); self.item(&it.value); }
+        self.p(")");
+    }
+
+    fn item(&mut self, it: &Item) {
+        match it {
+            Item::Func(ast::ItemFunc { qualifier, ty_keyword, ident, params, code }) => {
+                self.p("(func ");
+                match qualifier { Some(q) => self.p(&format!("{} ", q.value)), None => self.p("- ") }
+                self.p(&format!("{} {} (params", ty_keyword.value, ident.value.as_str()));
+                for p in params {
+                    let ast::FuncParam { qualifier: _, ty_keyword, ident } = &p.value;
+                    self.p(&format!(" ({} {})", ty_keyword.value, ident.as_ref().map(|i| i.value.as_str().to_string()).unwrap_or("<anon>".into())));
+                }
+                self.p(")");
+                match code { Some(b) => { self.p(" "); self.block(b); }, None => self.p(" <decl>") }
+                self.p(")");
+            },
+            Item::Script { keyword: _, number, ident, code } => {
+                self.p("(script ");
+                match number { Some(n) => self.int(n.value), None => self.p("-") }
+                self.p(&format!(" {} ", ident.value.as_str()));
+                self.block(code);
+                self.p(")");
+            },
+            Item::Meta { keyword, fields } => {
+                self.p(&format!("(meta-item {} ", keyword.value));
+                self.fields(&fields.value);
+                self.p(")");
+            },
+            Item::ConstVar { ty_keyword, vars } => {
+                self.p(&format!("(const {}", ty_keyword.value));
+                for v in vars { self.p(" ("); self.var(&v.value.0.value); self.p(" = "); self.expr(&v.value.1.value); self.p(")"); }
+                self.p(")");
+            },
+        }
+    }
+
+    fn fields(&mut self, f: &ast::meta::Fields) {
+        self.p("{");
+        for (k, v) in f.iter() { self.p(&format!(" {}: ", k.value.as_str())); self.meta(&v.value); self.p(","); }
+        self.p("}");
+    }
+
+    fn meta(&mut self, m: &Meta) {
+        match m {
+            Meta::Scalar(e) => { self.p("(scalar "); self.expr(&e.value); self.p(")"); },
+            Meta::Object(f) => { self.p("(object "); self.fields(&f.value); self.p(")"); },
+            Meta::Array(xs) => { self.p("(array"); for x in xs { self.p(" "); self.meta(&x.value); } self.p(")"); },
+            Meta::Variant { name, fields } => { self.p(&format!("(variant {} ", name.value.as_str())); self.fields(&fields.value); self.p(")"); },
+        }
+    }
+
+    fn block(&mut self, b: &ast::Block) {
+        self.p("(block");
+        for st in &b.0 { self.p("\n  "); self.stmt(&st.value); }
+        self.p(")");
+    }
+
+    fn jump(&mut self, j: &ast::StmtJumpKind) {
+        match j {
+            ast::StmtJumpKind::Goto(ast::StmtGoto { destination, time }) => {
+                self.p(&format!("(goto {}", destination.value.as_str()));
+                if let Some(t) = time { self.p(" @ "); self.int(t.value); }
+                self.p(")");
+            },
+            ast::StmtJumpKind::BreakContinue { keyword, loop_id: _ } => self.p(&format!("({})", keyword.value)),
+        }
+    }
+
+    fn stmt(&mut self, st: &ast::Stmt) {
+        let ast::Stmt { node_id: _, diff_label, offset_comment: _, kind } = st;
+        self.p("(stmt ");
+        if let Some(d) = diff_label { self.p("difficulty="); self.string(&d.value.string.value.string); self.p(" "); }
+        match kind {
+            StmtKind::Item(it) => self.item(&it.value),
+            StmtKind::Jump(j) => self.jump(j),
+            StmtKind::CondJump { keyword, cond, jump } => {
+                self.p(&format!("(condjump {} ", keyword.value)); self.expr(&cond.value); self.p(" "); self.jump(jump); self.p(")");
+            },
+            StmtKind::Return { keyword: _, value } => {
+                self.p("(return"); if let Some(v) = value { self.p(" "); self.expr(&v.value); } self.p(")");
+            },
+            StmtKind::CondChain(ast::StmtCondChain { cond_blocks, else_block }) => {
+                self.p("(condchain");
+                for cb in cond_blocks {
+                    self.p(&format!(" ({} ", cb.keyword.value)); self.expr(&cb.cond.value); self.p(" "); self.block(&cb.block); self.p(")");
+                }
+                if let Some(b) = else_block { self.p(" (else "); self.block(b); self.p(")"); }
+                self.p(")");
+            },
+            StmtKind::Loop { loop_id: _, keyword: _, block } => { self.p("(loop "); self.block(block); self.p(")"); },
+            StmtKind::While { loop_id: _, while_keyword: _, do_keyword, cond, block } => {
+                self.p(if do_keyword.is_some() { "(dowhile " } else { "(while " });
+                self.expr(&cond.value); self.p(" "); self.block(block); self.p(")");
+            },
+            StmtKind::Times { loop_id: _, keyword: _, clobber, count, block } => {
+                self.p("(times ");
+                if let Some(c) = clobber { self.p("clobber="); self.var(&c.value); self.p(" "); }
+                self.expr(&count.value); self.p(" "); self.block(block); self.p(")");
+            },
+            StmtKind::Expr(e) => { self.p("(exprstmt "); self.expr(&e.value); self.p(")"); },
+            StmtKind::Block(b) => self.block(b),
+            StmtKind::Assignment { var, op, value } => {
+                self.p("(assign "); self.var(&var.value); self.p(&format!(" {} ", op.value)); self.expr(&value.value); self.p(")");
+            },
+            StmtKind::Declaration { ty_keyword, vars } => {
+                self.p(&format!("(decl {}", ty_keyword.value));
+                for v in vars {
+                    self.p(" ("); self.var(&v.value.0.value);
+                    if let Some(e) = &v.value.1 { self.p(" = "); self.expr(&e.value); }
+                    self.p(")");
+                }
+                self.p(")");
+            },
+            StmtKind::CallSub { at_symbol, async_, func, args } => {
+                self.p(&format!("(callsub at={} {}", at_symbol, func.value.as_str()));
+                match async_ {
+                    None => {},
+                    Some(ast::CallAsyncKind::CallAsync) => self.p(" async"),
+                    Some(ast::CallAsyncKind::CallAsyncId(e)) => { self.p(" async="); self.expr(&e.value); },
+                }
+                for a in args { self.p(" "); self.expr(&a.value); }
+                self.p(")");
+            },
+            StmtKind::InterruptLabel(e) => { self.p("(interrupt "); self.expr(&e.value); self.p(")"); },
+            StmtKind::AbsTimeLabel(t) => { self.p("(abstime "); self.int(t.value); self.p(")"); if t.value < 0 { self.fl.neg_lit = true; } },
+            StmtKind::RelTimeLabel { delta, _absolute_time_comment: _ } => { self.p("(reltime "); self.expr(&delta.value); self.p(")"); },
+            StmtKind::Label(l) => self.p(&format!("(label {})", l.value.as_str())),
+            StmtKind::ScopeEnd(_) => self.p("(scope-end)"),
+            StmtKind::NoInstruction => self.p("(bookend)"),
+        }
+        self.p(")");
+    }
+
+    fn var(&mut self, v: &ast::Var) {
+        let sig = match v.ty_sigil { None => "", Some(ast::VarSigil::Int) => "$", Some(ast::VarSigil::Float) => "%" };
+        match &v.name {
+            ast::VarName::Normal { ident, language_if_reg: _ } => self.p(&format!("(var {}{})", sig, ident.as_str())),
+            ast::VarName::Reg { reg, language: _ } => self.p(&format!("(reg {}{})", sig, reg.0)),
+        }
+    }
+
+    fn lit(&mut self, l: Lit) {
+        match l {
+            Lit::I(v) => self.int(v),
+            Lit::F(b) => self.p(&format!("f:{:#010x}", b)),
+        }
+    }
+
+    fn expr(&mut self, e: &Expr) {
+        // flags (independent of the mode)
+        match e {
+            Expr::LitInt { value, .. } if *value < 0 => self.fl.neg_lit = true,
+            Expr::LitFloat { value } => {
+                if value.is_sign_negative() { self.fl.neg_lit = true; }
+                if !value.is_finite() { self.fl.nonfinite = true; }
+            },
+            Expr::UnOp(op, inner) => {
+                if op.value == ast::UnOpKind::Neg && matches!(inner.value, Expr::LitInt { .. } | Expr::LitFloat { .. }) { self.fl.neg_lit = true; }
+                if matches!(inner.value, Expr::UnOp(..)) { self.fl.nested_unary = true; }
+            },
+            Expr::DiffSwitch(_) => self.fl.switch = true,
+            _ => {},
+        }
+        if self.fold {
+            if let Some(l) = fold_lit(e) { self.lit(l); return; }
+        }
+        match e {
+            Expr::Ternary { cond, question: _, left, colon: _, right } => {
+                self.p("(?: "); self.expr(&cond.value); self.p(" "); self.expr(&left.value); self.p(" "); self.expr(&right.value); self.p(")");
+            },
+            Expr::BinOp(a, op, b) => {
+                self.p(&format!("(bin {} ", op.value)); self.expr(&a.value); self.p(" "); self.expr(&b.value); self.p(")");
+            },
+            Expr::UnOp(op, x) => { self.p(&format!("(un {:?} ", op.value)); self.expr(&x.value); self.p(")"); },
+            Expr::XcrementOp { op, order, var } => { self.p(&format!("(xcrement {} {:?} ", op.value, order)); self.var(&var.value); self.p(")"); },
+            Expr::Var(v) => self.var(&v.value),
+            Expr::Call(ast::ExprCall { name, pseudos, args }) => {
+                match &name.value {
+                    ast::CallableName::Normal { ident, language_if_ins: _ } => self.p(&format!("(call {}", ident.as_str())),
+                    ast::CallableName::Ins { opcode, language: _ } => self.p(&format!("(call-ins {}", opcode)),
+                }
+                for ps in pseudos { self.p(&format!(" (@{} ", ps.value.kind.value)); self.expr(&ps.value.value.value); self.p(")"); }
+                self.p(" (args");
+                for a in args { self.p(" "); self.expr(&a.value); }
+                self.p("))");
+            },
+            Expr::DiffSwitch(cases) => {
+                self.p("(switch");
+                for c in cases.iter() { match c { Some(c) => { self.p(" "); self.expr(&c.value); }, None => self.p(" <hole>") } }
+                self.p(")");
+            },
+            Expr::LitInt { value, format } => {
+                self.int(*value);
+                if !self.fold { self.p(&format!("/{:?}{}", format.radix, if format.signed { "s" } else { "u" })); }
+            },
+            Expr::LitFloat { value } => self.p(&format!("f:{:#010x}", value.to_bits())),
+            Expr::LitString(s) => { self.p("str:"); self.string(&s.string); },
+            Expr::LabelProperty { label, keyword } => self.p(&format!("({} {})", keyword.value, label.value.as_str())),
+            Expr::EnumConst { enum_name, ident } => self.p(&format!("(enum {}.{})", enum_name.value.as_str(), ident.value.as_str())),
+        }
+    }
+}
+
+fn canon_file(f: &ast::ScriptFile, fold: bool) -> (String, Flags) {
+    let mut c = Canon::new(fold);
+    c.file(f);
+    (c.s, c.fl)
+}
+
+// =============================================================================================
+// driving the real parser and formatter
+
+enum ParseErr { Rejected(String), Panicked(Panic) }
+
+fn first_error_line(diag: &str) -> String {
+    let l = diag.lines().find(|l| l.starts_with("error") || l.starts_with("bug")).unwrap_or_else(|| diag.lines().next().unwrap_or(""));
+    l.chars().take(160).collect()
+}
+
+/// Parse one text in a fresh context (so that nothing leaks between cases).
+fn parse_file(text: &str) -> Result<ast::ScriptFile, ParseErr> {
+    let mut scope = truth::Builder::new().capture_diagnostics(true).build();
+    let mut truth = scope.truth();
+    let r = catch(|| match truth.parse::<ast::ScriptFile>("<input>", text.as_bytes()) {
+        Ok(a) => Ok(a.value),
+        Err(e) => { let e: truth::ErrorReported = e; e.ignore(); Err(()) },
+    });
+    match r {
+        Ok(Ok(a)) => Ok(a),
+        Ok(Err(())) => {
+            let diag = catch(|| truth.get_captured_diagnostics().unwrap_or_default()).unwrap_or_else(|p| p.text);
+            Err(ParseErr::Rejected(diag))
+        },
+        Err(p) => Err(ParseErr::Panicked(p)),
+    }
+}
+
+fn print_file(a: &ast::ScriptFile, width: usize) -> Result<String, Panic> {
+    catch(|| {
+        let mut out = vec![];
+        {
+            let cfg = truth::fmt::Config::new().max_columns(width);
+            let mut f = truth::Formatter::with_config(&mut out, cfg);
+            if let Err(e) = f.fmt(a) { panic!("formatter error: {:#}", e); }
+        }
+        String::from_utf8(out).expect("formatter output is utf-8")
+    })
+}
+
+/// Characters of `t` that are outside string literals (string bodies replaced by nothing).
+fn outside_strings(t: &str) -> String {
+    let mut out = String::new();
+    let mut in_str = false; let mut esc = false;
+    for c in t.chars() {
+        if in_str {
+            if esc { esc = false; } else if c == '\\' { esc = true; } else if c == '"' { in_str = false; out.push('"'); }
+        } else { out.push(c); if c == '"' { in_str = true; } }
+    }
+    out
+}
+
+/// Root-cause class of a failure, recognised from the *printed* text; falls back to the generator's class.
+fn classify(kind: &str, printed: &str, raw_flags: &Flags, class: &str) -> String {
+    if kind == "print-panics-line-break-in-label" { return "label-with-call".into(); }
+    let t: Vec<char> = outside_strings(printed).chars().collect();
+    if kind == "reparse-fails" || kind == "reparse-panics" {
+        for i in 0..t.len().saturating_sub(1) {
+            if t[i] == '!' && "-*ENHLWXYZO4567".contains(t[i + 1]) { return "unop-not-glued-to-difficulty-token".into(); }
+        }
+        for i in 0..t.len().saturating_sub(2) {
+            let two_minus = t[i] == '-' && t[i + 1] == '-';
+            if two_minus && (t[i + 2].is_ascii_digit() || t[i + 2] == '-' || t[i + 2] == '(') { return "prefix-op-glued-to-minus".into(); }
+            if t[i] == '~' && t[i + 1] == '-' { return "prefix-op-glued-to-minus".into(); }
+        }
+    }
+    if kind == "reparse-fails" {
+        let joined: String = t.iter().collect();
+        if joined.contains("+++") { return "rel-time-plus-glued-to-increment".into(); }
+    }
+    if kind == "not-idempotent" && raw_flags.neg_lit { return "negative-literal-reparses-as-parenthesised-unop".into(); }
+    class.to_string()
+}
+
+#[derive(Debug, Clone)]
+struct Fail { kind: String, class: String, width: usize, printed: Option<String>, note: String }
+
+struct PEval {
+    widths_done: u64,
+    comparisons: u64,
+    changes_with_width: bool,
+    t99: String,
+    fails: Vec<Fail>,
+    outcomes: Vec<(String, u64)>,
+}
+
+/// Evaluate one parsed AST at the given widths.
+fn eval_p(a: &ast::ScriptFile, class: &str, widths: &[usize]) -> PEval {
+    let (c0, _) = canon_file(a, true);
+    let (_, raw_flags) = canon_file(a, false);
+    let mut ev = PEval { widths_done: 0, comparisons: 0, changes_with_width: false, t99: String::new(), fails: vec![], outcomes: vec![] };
+    let mut texts: BTreeSet<String> = BTreeSet::new();
+    let mut oc: BTreeMap<String, u64> = BTreeMap::new();
+    for &w in widths {
+        ev.widths_done += 1;
+        let fail = |ev: &mut PEval, oc: &mut BTreeMap<String, u64>, kind: &str, printed: Option<&str>, note: String| {
+            let cls = classify(kind, printed.unwrap_or(""), &raw_flags, class);
+            *oc.entry(format!("{kind}:{cls}")).or_insert(0) += 1;
+            ev.fails.push(Fail { kind: kind.into(), class: cls, width: w, printed: printed.map(|s| s.to_string()), note });
+        };
+        let t = match print_file(a, w) {
+            Ok(t) => t,
+            Err(p) => {
+                let kind = if p.text.contains("Detected line break in label") { "print-panics-line-break-in-label" } else { "print-panics" };
+                fail(&mut ev, &mut oc, kind, None, p.text); continue;
+            },
+        };
+        if w == 99 { ev.t99 = t.clone(); }
+        texts.insert(t.clone());
+        let a2 = match parse_file(&t) {
+            Ok(a2) => a2,
+            Err(ParseErr::Rejected(d)) => { fail(&mut ev, &mut oc, "reparse-fails", Some(&t), first_error_line(&d)); continue; },
+            Err(ParseErr::Panicked(p)) => { fail(&mut ev, &mut oc, "reparse-panics", Some(&t), p.text); continue; },
+        };
+        ev.comparisons += 1;
+        let (c2, _) = canon_file(&a2, true);
+        if c2 != c0 {
+            fail(&mut ev, &mut oc, "ast-differs", Some(&t), first_diff(&c0, &c2));
+            continue;
+        }
+        match print_file(&a2, w) {
+            Err(p) => { fail(&mut ev, &mut oc, "reprint-panics", Some(&t), p.text); continue; },
+            Ok(t2) => {
+                ev.comparisons += 1;
+                if t2 != t { fail(&mut ev, &mut oc, "not-idempotent", Some(&t), first_diff(&t, &t2)); continue; }
+            },
+        }
+        *oc.entry("ok".into()).or_insert(0) += 1;
+    }
+    ev.changes_with_width = texts.len() > 1;
+    ev.outcomes = oc.into_iter().collect();
+    ev
+}
+
+fn first_diff(a: &str, b: &str) -> String {
+    let ac: Vec<char> = a.chars().collect(); let bc: Vec<char> = b.chars().collect();
+    let mut i = 0;
+    while i < ac.len() && i < bc.len() && ac[i] == bc[i] { i += 1; }
+    let s = i.saturating_sub(30);
+    let ea: String = ac[s..(i + 50).min(ac.len())].iter().collect();
+    let eb: String = bc[s..(i + 50).min(bc.len())].iter().collect();
+    format!("first difference at char {i}: expected …{ea}… found …{eb}…")
+}
+
+fn has_nondecimal(text: &str) -> bool {
+    let t = outside_strings(text);
+    t.contains("0x") || t.contains("0X") || t.contains("0b") || t.contains("0B")
+}
+
+// =============================================================================================
+// run
+
+struct Acc {
+    failure_counts: BTreeMap<String, u64>,
+    best: BTreeMap<String, (usize, Value)>,
+}
+impl Acc {
+    fn add(&mut self, sig: String, size: usize, detail: Value) {
+        *self.failure_counts.entry(sig.clone()).or_insert(0) += 1;
+        match self.best.get(&sig) {
+            Some((s, _)) if *s <= size => {},
+            _ => { self.best.insert(sig, (size, detail)); },
+        }
+    }
+}
+
+pub fn run(tier: &str) -> Report {
+    let mut rep = Report::new("C08", tier, "model_checking");
+    let thorough = rep.is_thorough();
+    let deadline = rep.deadline();
+    rep.rule = "the printed text changes with the width, or contains a negative literal, non-decimal literal, escape, switch or nested unary".into();
+    let mut acc = Acc { failure_counts: BTreeMap::new(), best: BTreeMap::new() };
+    let mut families: BTreeMap<String, u64> = BTreeMap::new();
+    let mut timings = serde_json::Map::new();
+    let mut capped = false;
+
+    // ---------------- (P) parser-produced ASTs
+    let t0 = std::time::Instant::now();
+    let cases = gen_p(thorough);
+    rep.transitions += cases.len() as u64;
+    for c in &cases { *families.entry(format!("P:{}", c.class)).or_insert(0) += 1; }
+    timings.insert("p_generate_s".into(), json!(t0.elapsed().as_secs_f64()));
+
+    // stage 1: parse every text, key it by the faithful canonical form
+    let t1 = std::time::Instant::now();
+    let parsed = par_map(&cases, Some(deadline), |_, c| {
+        match parse_file(&c.text) {
+            Ok(a) => { let (k, _) = canon_file(&a, false); Ok(k) },
+            Err(ParseErr::Rejected(d)) => Err(format!("rejected: {}", first_error_line(&d))),
+            Err(ParseErr::Panicked(p)) => Err(format!("panicked: {}", p.signature())),
+        }
+    });
+    timings.insert("p_parse_s".into(), json!(t1.elapsed().as_secs_f64()));
+    let mut distinct: BTreeMap<String, usize> = BTreeMap::new();   // key -> index of the shortest text
+    let mut rejected_samples: BTreeMap<String, Vec<String>> = BTreeMap::new();
+    for (i, r) in parsed.iter().enumerate() {
+        match r {
+            None => { capped = true; },
+            Some(Ok(k)) => {
+                let e = distinct.entry(k.clone()).or_insert(i);
+                if cases[i].text.len() < cases[*e].text.len() { *e = i; }
+            },
+            Some(Err(why)) => {
+                let key = if why.starts_with("panicked") { "input-parse-panicked" } else { "input-rejected-by-parser" };
+                rep.discard(&format!("{key}:{}", cases[i].class));
+                let v = rejected_samples.entry(format!("{}|{}", cases[i].class, why)).or_default();
+                if v.len() < 2 { v.push(cases[i].text.clone()); }
+            },
+        }
+    }
+    drop(parsed);
+    let mut work: Vec<usize> = distinct.values().copied().collect();
+    work.sort_by_key(|&i| (cases[i].text.len(), i));
+    rep.states += work.len() as u64;
+    let all_widths: Vec<usize> = (1..=200).collect();
+    let n_full = if thorough { 2000 } else { 0 };
+
+    // stage 2: all widths
+    let t2 = std::time::Instant::now();
+    let items: Vec<(usize, usize)> = work.iter().enumerate().map(|(rank, &i)| (rank, i)).collect();
+    let results = par_map(&items, Some(deadline), |_, &(rank, i)| {
+        let c = &cases[i];
+        let a = match parse_file(&c.text) { Ok(a) => a, Err(_) => return None };
+        let widths: &[usize] = if rank < n_full { &all_widths } else { &QUICK_WIDTHS };
+        let ev = eval_p(&a, &c.class, widths);
+        let (_, fl) = canon_file(&a, false);
+        Some((ev, fl))
+    });
+    timings.insert("p_eval_s".into(), json!(t2.elapsed().as_secs_f64()));
+    let mut n_full_done = 0u64;
+    for (k, r) in results.into_iter().enumerate() {
+        let (rank, i) = items[k];
+        let Some(Some((ev, fl))) = r else { if r.is_none() { capped = true; } continue; };
+        if rank < n_full { n_full_done += 1; }
+        let c = &cases[i];
+        rep.evaluations += ev.widths_done;
+        rep.traces_validated += ev.comparisons;
+        for (k, n) in &ev.outcomes { rep.outcome_n(&format!("P:{k}"), *n); }
+        let nontrivial = ev.changes_with_width || fl.neg_lit || fl.switch || fl.nested_unary || has_nondecimal(&c.text) || outside_strings(&ev.t99).len() != ev.t99.len() && ev.t99.contains('\\');
+        if nontrivial { rep.nontrivial += 1; }
+        if ev.fails.is_empty() && ev.changes_with_width && (rank % 997 == 3) {
+            rep.sample(json!({"source": "P", "class": c.class, "text": c.text, "printed_at_99": ev.t99}));
+        }
+        // one failure per (kind, class) for this AST: the smallest width
+        let mut by_sig: BTreeMap<String, Vec<&Fail>> = BTreeMap::new();
+        for f in &ev.fails { by_sig.entry(format!("C08:{}:{}", f.kind, f.class)).or_default().push(f); }
+        for (sig, fs) in by_sig {
+            let f = fs.iter().find(|f| f.width == 99).unwrap_or(&fs[0]);
+            let widths: Vec<usize> = fs.iter().map(|f| f.width).collect();
+            *acc.failure_counts.entry(sig.clone()).or_insert(0) += fs.len() as u64 - 1;
+            // prefer witnesses that fail at the default width, then short texts
+            let rank = c.text.len() + if f.width == 99 { 0 } else { 100_000 };
+            acc.add(sig, rank, json!({"source": "P", "text": c.text, "class": c.class, "width": f.width, "failing_widths": widths, "kind": f.kind, "printed": f.printed, "note": f.note}));
+        }
+    }
+    rep.extra.insert("p_rejected_inputs".into(), json!(rejected_samples.iter().take(60).map(|(k, v)| json!({"class|why": k, "examples": v})).collect::<Vec<_>>()));
+
+    // ---------------- (D) decompiler-produced ASTs
+    let t3 = std::time::Instant::now();
+    let dstats = run_d(&mut rep, &mut acc, &mut families, thorough, deadline, &mut capped);
+    timings.insert("d_s".into(), json!(t3.elapsed().as_secs_f64()));
+    rep.extra.insert("d_stats".into(), dstats);
+
+    for (sig, (_, detail)) in &acc.best { rep.fail(sig.clone(), detail.clone()); }
+    rep.extra.insert("failure_counts".into(), json!(acc.failure_counts));
+    rep.extra.insert("families".into(), json!(families));
+    rep.extra.insert("timings".into(), Value::Object(timings));
+    rep.extra.insert("widths_quick".into(), json!(QUICK_WIDTHS));
+    rep.extra.insert("asts_with_all_widths_1_to_200".into(), json!(n_full_done));
+    if capped { rep.cap_hit = Some("wall-clock deadline reached before every case was evaluated".into()); }
+    rep.exhaustive = !capped;
+    rep.bound_completed = format!("P: {} generated texts -> {} distinct ASTs x widths {}; D: see d_stats", cases.len(), work.len(),
+        if thorough { "1..=200 for the 2000 smallest, quick set for the rest" } else { "{1,2,10,20,40,79,80,99,100,200}" });
+    rep.assumptions = vec![
+        "AST equality is decided by the harness's own canonical walk over truth's public AST types, not by truth's PartialEq: spans, NodeId/ResId/LoopId, language tags, DiffLabel.mask, offset comments and the decompiler's absolute-time comment are not compared (ids differ between two parses and are not part of the script).".into(),
+        "Literal signs are normalised before comparison: unary minus applied to a literal folds (recursively, with wrapping negation for ints and a sign-bit flip for floats), because the grammar has no negative literal token; the int display format (hex/bin/bool) is a printing hint and is not compared.".into(),
+        "The builtin constant name INF is identified with the literal +inf (the parser can produce a LitFloat inf from an overlong decimal, which prints as INF).".into(),
+        "Idempotence compares fmt_w(parse(fmt_w(A))) with fmt_w(A) byte for byte, for parser-produced ASTs only; for decompiler-produced ASTs the oracle is: text parses, recompiles to the same bytes (unless the decompiler warned), and every width re-parses to the same AST as width 99.".into(),
+        "Distinct ASTs are counted by the faithful (unnormalised) canonical form, which is at least as fine as the width-99 text.".into(),
+        "Comments and blank lines are not part of the AST.".into(),
+    ];
+    rep.explanation = "Every generated text is parsed with the real parser, printed with the real Formatter at each width, re-parsed, compared structurally and re-printed. Decompiler ASTs come from binaries compiled with user mapfile signatures and @blob pseudo-args so that arbitrary bit patterns reach the decompiler.".into();
+    rep
+}
+
+// =============================================================================================
+// replay
+
+pub fn replay(detail: &Value) -> i32 {
+    let width = detail["width"].as_u64().unwrap_or(99) as usize;
+    match detail["source"].as_str() {
+        Some("P") => {
+            let text = detail["text"].as_str().unwrap_or("");
+            println!("--- input text\n{text}\n--- width {width}");
+            let a = match parse_file(text) {
+                Ok(a) => a,
+                Err(ParseErr::Rejected(d)) => { println!("input no longer parses:\n{d}"); return 0; },
+                Err(ParseErr::Panicked(p)) => { println!("input parse panicked: {}", p.text); return 0; },
+            };
+            let ev = eval_p(&a, detail["class"].as_str().unwrap_or("?"), &[width]);
+            match print_file(&a, width) { Ok(t) => println!("--- printed T_w\n{t}"), Err(p) => println!("--- printing panicked: {}", p.text) }
+            if ev.fails.is_empty() { println!("--- comparison: re-parsed AST equal, re-print identical"); return 0; }
+            for f in &ev.fails { println!("--- FAIL {}:{} at width {}: {}", f.kind, f.class, f.width, f.note); }
+            1
+        },
+        Some("D") => replay_d(detail),
+        _ => { println!("unknown detail.source"); 2 },
+    }
+}
+
+// =============================================================================================
+// (P) text generator: nested-loop enumeration over the statement/expression/meta grammar
+
+pub struct PCase { pub text: String, pub class: String }
+
+struct Gen { out: Vec<PCase>, seen: BTreeSet<String> }
+impl Gen {
+    fn push(&mut self, class: &str, text: String) {
+        if self.seen.insert(text.clone()) { self.out.push(PCase { text, class: class.to_string() }); }
+    }
+    /// a statement (or several) inside `script s { ... }`
+    fn body(&mut self, class: &str, body: &str) { self.push(class, format!("script s {{\n    {}\n}}\n", body)); }
+}
+
+const BINOPS: [&str; 19] = ["||", "&&", "|", "^", "&", "==", "!=", "<", "<=", ">", ">=", "<<", ">>", ">>>", "+", "-", "*", "/", "%"];
+const ASSIGN_OPS: [&str; 12] = ["=", "+=", "-=", "*=", "/=", "%=", "|=", "^=", "&=", "<<=", ">>=", ">>>="];
+const PREFIX_OPS: [&str; 3] = ["-", "!", "~"];
+const FUNC_OPS: [&str; 13] = ["sin", "cos", "tan", "asin", "acos", "atan", "sqrt", "int", "float", "_S", "_f", "$", "%"];
+
+fn int_spellings(thorough: bool) -> Vec<String> {
+    let vals: Vec<u32> = if thorough {
+        vec![0, 1, 4, 5, 6, 7, 10, 45, 47, 0x7f, 0xff, 0x7fff, 0x8000, 0xffff, 0x7fffffff, 0x80000000, 0x80000001, 0xfffffffe, 0xffffffff]
+    } else {
+        vec![0, 1, 4, 7, 45, 0x7fffffff, 0x80000000, 0x80000001, 0xffffffff]
+    };
+    let mut v = vec![];
+    for x in vals {
+        v.push(format!("{x}"));
+        v.push(format!("{x:#x}"));
+        v.push(format!("{x:#b}"));
+        if thorough { v.push(format!("0X{x:X}")); v.push(format!("0B{x:b}")); v.push(format!("00{x}")); }
+    }
+    v
+}
+
+fn float_spellings(thorough: bool) -> Vec<String> {
+    let mut v: Vec<String> = vec!["0.0", "1.5", "1f", "1.f", "1.5f", "0.1", "16777217.0", "0.30000001", "00.50", "123456789.0",
+        "rad(1.5)", "rad(-1.5)", "rad(+1)", "rad(1f)", "rad(180)", "rad(1.f)", "rad(0)"].iter().map(|s| s.to_string()).collect();
+    // decimal expansions of boundary bit patterns (Rust's shortest round-trip spelling has no exponent)
+    let mut bits: Vec<u32> = vec![1, 0x007f_ffff, 0x0080_0000, 0x7f7f_ffff, 0x3f80_0001, 0x3f7f_ffff, 0x3dcc_cccd, 0x4b80_0001];
+    if thorough { bits.extend([2, 0x0000_ffff, 0x0080_0001, 0x7f00_0000, 0x4f00_0000, 0x4eff_ffff, 0x3f00_0000, 0x3380_0000, 0x7f7f_fffe]); }
+    for b in bits {
+        let mut s = format!("{}", f32::from_bits(b));
+        if !s.contains('.') { s.push_str(".0"); }
+        v.push(s);
+    }
+    // exact (long) expansions: f32::MAX, twice f32::MAX (overflows to inf), below half the smallest subnormal (rounds to 0)
+    v.push("340282346638528859811704183484516925440.0".into());
+    v.push("680564693277057719623408366969033850880.0".into());
+    v.push("99999999999999999999999999999999999999999999999999.0".into());
+    v.push(format!("0.{}1", "0".repeat(60)));
+    v.push("0.00000000000000000000000000000000000000000000140129846432481707092372958328991613128026194187651577175706828388979108268586060148663818836212158203125".into());
+    v
+}
+
+fn string_spellings(thorough: bool) -> Vec<String> {
+    let mut v: Vec<String> = vec![
+        r#""""#, r#""a""#, r#""\"""#, r#""\\""#, r#""\0""#, r#""\n""#, r#""\r""#, r#""a\\\"b\n\r\0c""#, "\"raw\nnewline\"", "\"raw\ttab\"",
+        "\"日本語\"", "\"ソ\"", r#""//not a comment""#, r#""/* nor this */""#, r#""{}%s;,)(""#, r#""\\n""#, "\"\u{1}\u{7f}\"", "\"\u{2028}\u{feff}\"", "\"😀é\u{301}\"",
+    ].iter().map(|s| s.to_string()).collect();
+    v.push(format!("\"{}\"", "long ".repeat(30)));
+    if thorough {
+        v.extend(["\"raw\rcr\"", r#""\"\"""#, r#""'""#, "\"\u{85}\"", "\"ｶﾀｶﾅ\"", r#""\\\\""#, r#""\0\0""#, r#""a b""#, r#"" ""#, r#""!EN""#].iter().map(|s| s.to_string()));
+        v.push(format!("\"{}\"", "日本語".repeat(40)));
+    }
+    v
+}
+
+/// (atom text, atom class)
+fn atoms(thorough: bool) -> Vec<(String, &'static str)> {
+    let mut v: Vec<(String, &'static str)> = vec![];
+    for s in int_spellings(thorough) { v.push((s, "int")); }
+    for s in float_spellings(thorough) { v.push((s, "float")); }
+    for s in string_spellings(thorough) { v.push((s, "string")); }
+    for s in ["x", "X", "E", "EN", "Hello", "O4", "Z7x", "$x", "%x", "$X", "%E", "REG[5]", "$REG[-1]", "%REG[10000]", "REG[4294967295]", "REG[-2147483648]", "REG[0x10]",
+              "I0", "entry", "mapfile", "default", "case", "script", "anim", "ecli", "true", "false", "INF", "NAN", "PI", "_", "a_very_long_identifier_name_that_goes_on_and_on_0123456789"] {
+        v.push((s.to_string(), "var"));
+    }
+    for s in ["offsetof(l)", "timeof(l)", "offsetof(entry)", "Foo.Bar", "bool.true", "f()", "ins_3()", "ins_65535()", "x++", "x--", "++x", "--x", "$x++", "--%REG[3]", "X++", "--X"] {
+        v.push((s.to_string(), "term"));
+    }
+    v
+}
+
+/// Contexts for an expression; `{}` is replaced.  (name, template, needs ExprNoColon-safe?) — every template
+/// parenthesises where the grammar requires it, so any expression text that is itself parenthesis-safe fits.
+fn contexts(thorough: bool) -> Vec<(&'static str, String)> {
+    let mut v: Vec<(&'static str, String)> = vec![
+        ("assign", "I0 = {};".into()),
+        ("call-arg", "f({});".into()),
+        ("call-2args", "f({}, {});".into()),
+        ("if-goto", "if ({}) goto l;".into()),
+        ("while", "while ({}) { }".into()),
+        ("times", "times({}) { }".into()),
+        ("return", "return {};".into()),
+        ("decl-init", "int a = {}, b;".into()),
+        ("interrupt", "interrupt[{}]:".into()),
+        ("rel-time", "+({}):\n    f();".into()),
+        ("neg-of", "I0 = -({});".into()),
+        ("not-of", "I0 = !({});".into()),
+        ("bitnot-of", "I0 = ~({});".into()),
+        ("sin-of", "F0 = sin({});".into()),
+        ("cast-of", "I0 = $({}) + int({});".into()),
+        ("binop-left", "I0 = ({}) + b;".into()),
+        ("binop-right", "I0 = a - ({});".into()),
+        ("ternary-cond", "I0 = ({}) ? b : c;".into()),
+        ("ternary-left", "I0 = a ? ({}) : c;".into()),
+        ("ternary-right", "I0 = a ? b : ({});".into()),
+        ("switch-first", "f(({}):b);".into()),
+        ("switch-last", "f(a::({}));".into()),
+        ("pseudo-mask", "ins_1(@mask={}, 5);".into()),
+        ("expr-stmt", "({});".into()),
+    ];
+    if thorough {
+        v.extend([
+            ("op-assign", "I0 += {};".to_string()),
+            ("unless-goto", "unless ({}) goto l @ 5;".into()),
+            ("if-block", "if ({}) { } else if ({}) { }".into()),
+            ("do-while", "do { } while ({});".into()),
+            ("times-clobber", "times(I0 = {}) { }".into()),
+            ("pseudo-arg0", "ins_1(@arg0={});".into()),
+            ("binop-mul-right", "I0 = a * ({});".into()),
+            ("switch-mid", "f(a:({}):);".into()),
+            ("cos-of", "F0 = cos({}) + float({}) + %({}) + sqrt({});".into()),
+            ("call-nested", "f(g({}), h(1, {}));".into()),
+        ]);
+    }
+    v
+}
+
+/// item-level contexts (whole file templates)
+fn file_contexts() -> Vec<(&'static str, String)> {
+    vec![
+        ("const-init", "const int A = {}, B = {};\n".into()),
+        ("meta-scalar", "meta { k: ({}) }\n".into()),
+        ("meta-array", "entry { k: [({}), ({})], j: {i: ({})} }\n".into()),
+    ]
+}
+
+fn gen_atoms_in_contexts(g: &mut Gen, thorough: bool) {
+    let at = atoms(thorough);
+    for (cname, tpl) in contexts(thorough) {
+        for (a, acls) in &at {
+            // the rel-time/switch/expr-stmt templates parenthesise, which is transparent in the AST
+            g.body(&format!("atom-in-context:{acls}:{cname}"), &tpl.replace("{}", a));
+        }
+    }
+    for (cname, tpl) in file_contexts() {
+        for (a, acls) in &at { g.push(&format!("atom-in-context:{acls}:{cname}"), tpl.replace("{}", a)); }
+    }
+    // unparenthesised spellings where the grammar allows them (same ASTs, but also literal-only positions)
+    for (a, acls) in &at {
+        if a.starts_with('-') || a.starts_with('+') { continue; }
+        g.body(&format!("atom-bare:{acls}"), &format!("I0 = -{a};"));
+        g.body(&format!("atom-bare:{acls}"), &format!("I0 = a + {a} * {a};"));
+        g.body(&format!("atom-bare:{acls}"), &format!("+{a}:\n    f({a} : {a} : : -{a});"));
+        g.push(&format!("atom-bare:{acls}"), format!("meta {{ k: {a}, j: -{a} }}\n"));
+    }
+}
+
+fn gen_unops(g: &mut Gen, thorough: bool) {
+    let inner: Vec<&str> = if thorough {
+        vec!["3", "4", "x", "X", "E7", "0xffffffff", "0x80000000", "1.5", "(a + b)", "(a : b)", "(a ? b : c)", "\"s\"", "f(1)", "--x", "x--", "++x", "REG[-1]"]
+    } else {
+        vec!["3", "4", "x", "X", "0xffffffff", "1.5", "(a + b)", "(a : b)", "--x", "x--"]
+    };
+    let mut ops: Vec<String> = PREFIX_OPS.iter().map(|s| s.to_string()).collect();
+    ops.extend(FUNC_OPS.iter().map(|s| s.to_string()));
+    let ap = |op: &str, x: &str| -> String { format!("{op}({x})") };
+    for o1 in &ops { for x in &inner {
+        g.body("unop:single", &format!("I0 = {};", ap(o1, x)));
+        g.body("unop:single", &format!("f({}, b);", ap(o1, x)));
+        g.body("unop:single", &format!("I0 = a * {} - c;", ap(o1, x)));
+        for o2 in &ops {
+            let e = ap(o1, &ap(o2, x));
+            g.body("unop:nested2", &format!("I0 = {e};"));
+            g.body("unop:nested2", &format!("f({e});"));
+        }
+    }}
+    let deep: Vec<&str> = if thorough { vec!["3", "x", "X", "0xffffffff", "1.5", "--x"] } else { vec!["3", "X", "0xffffffff"] };
+    for o1 in PREFIX_OPS { for o2 in PREFIX_OPS { for o3 in PREFIX_OPS { for x in &deep {
+        let e = ap(o1, &ap(o2, &ap(o3, x)));
+        g.body("unop:nested3", &format!("I0 = {e};"));
+        g.body("unop:nested3", &format!("f(a, {e});"));
+        if thorough { for o4 in PREFIX_OPS { g.body("unop:nested4", &format!("I0 = {};", ap(o4, &e))); } }
+    }}}}
+    // bare prefix operators (one level is all the grammar allows without parentheses)
+    for o in PREFIX_OPS { for x in ["3", "4", "x", "X", "Hello", "1.5", "f(1)", "x++", "++x", "REG[1]", "$x", "%X", "\"s\"", "offsetof(l)", "Foo.Bar"] {
+        // `!` directly before [ENHLWXYZO4567-*] lexes as the (unused) difficulty token: those texts only probe the lexer
+        let cls = if o == "!" && "ENHLWXYZO4567".contains(&x[..1]) { "unop:bare-lexer-probe" } else { "unop:bare" };
+        g.body(cls, &format!("I0 = {o}{x};"));
+        g.body(cls, &format!("I0 = a - {o}{x} * {o} {x};"));
+        g.body(cls, &format!("f({o}{x}, {o}{x});"));
+    }}
+}
+
+fn gen_binops(g: &mut Gen, thorough: bool) {
+    for o1 in BINOPS { for o2 in BINOPS {
+        g.body("binop:pair-left", &format!("I0 = (a {o1} b) {o2} c;"));
+        g.body("binop:pair-right", &format!("I0 = a {o1} (b {o2} c);"));
+        g.body("binop:pair-natural", &format!("I0 = a {o1} b {o2} c;"));
+        g.body("binop:pair-in-call", &format!("f((a {o1} b) {o2} c, a {o1} (b {o2} c));"));
+        if thorough {
+            g.body("binop:pair-in-cond", &format!("if ((a {o1} b) {o2} c) goto l;"));
+            g.body("binop:pair-in-cond", &format!("while (a {o1} (b {o2} c)) {{ }}"));
+            g.body("binop:pair-with-unary", &format!("I0 = -(a {o1} b) {o2} !c;"));
+            g.body("binop:pair-with-unary", &format!("I0 = -a {o1} ~(b {o2} -1);"));
+        }
+    }}
+    for o in BINOPS {
+        for (a, b) in [("-a", "b"), ("a", "-b"), ("a", "!b"), ("a", "~b"), ("a", "-1"), ("-1", "b"), ("a", "0xffffffff"), ("0xffffffff", "0x80000000"), ("a", "-1.5"), ("a", "--b"), ("a--", "b"), ("a++", "++b"), ("a", "-(-1)"),
+                       ("(a ? b : c)", "d"), ("a", "(b : c)"), ("\"s\"", "\"t\""), ("f(a, b)", "g()"), ("sin(a)", "$(b)")] {
+            g.body("binop:operands", &format!("I0 = {a} {o} {b};"));
+            g.body("binop:operands", &format!("f({a} {o} {b});"));
+        }
+    }
+    // long chains (left and right nested) so that lines exceed every width
+    let n_max = if thorough { 24 } else { 12 };
+    for n in 2..=n_max {
+        let left = (0..n).fold("v0".to_string(), |acc, i| format!("({acc} + value{i})"));
+        let right = (0..n).rev().fold("v0".to_string(), |acc, i| format!("(value{i} * {acc})"));
+        g.body("binop:chain", &format!("I0 = {left};"));
+        g.body("binop:chain", &format!("I0 = {right};"));
+        g.body("binop:chain", &format!("f({left}, {right});"));
+    }
+}
+
+fn gen_ternary_switch(g: &mut Gen, thorough: bool) {
+    // ternary shapes: every slot is an atom, a ternary, a switch or a binop (parenthesised: the grammar needs it
+    // everywhere except the right-associative chain, which is also spelled naturally)
+    let slot = ["a", "(p ? q : r)", "(p : q)", "(p + q)", "-1", "(p : : q : )"];
+    for c in slot { for l in slot { for r in slot {
+        g.body("ternary:shapes", &format!("I0 = {c} ? {l} : {r};"));
+        g.body("ternary:shapes-in-call", &format!("f({c} ? {l} : {r}, z);"));
+    }}}
+    for n in 1..=(if thorough { 8 } else { 5 }) {
+        let mut right = "z".to_string(); let mut left = "z".to_string(); let mut cond = "z".to_string();
+        for i in 0..n { right = format!("c{i} ? v{i} : {right}"); left = format!("c{i} ? ({left}) : v{i}"); cond = format!("({cond}) ? v{i} : w{i}"); }
+        for e in [&right, &left, &cond] {
+            g.body("ternary:chains", &format!("I0 = {e};"));
+            g.body("ternary:chains", &format!("f({e});"));
+            g.body("ternary:chains", &format!("if ({e}) goto l;"));
+        }
+    }
+    // difficulty switches with holes (the first case cannot be a hole)
+    let max_n = if thorough { 6 } else { 5 };
+    let case_vals = ["a", "-1", "(p + q)", "(p ? q : r)", "(p : q)", "\"s\"", "1.5", "f(1, 2)", "0xffffffff", "!(X)"];
+    for n in 2..=max_n {
+        for holes in 0u32..(1 << (n - 1)) {
+            for (vi, v0) in case_vals.iter().enumerate() {
+                if vi >= 3 && holes % 3 != 0 && !thorough { continue; }
+                let mut parts: Vec<String> = vec![v0.to_string()];
+                for i in 1..n { parts.push(if holes >> (i - 1) & 1 == 1 { String::new() } else { case_vals[(vi + i) % case_vals.len()].to_string() }); }
+                let sw = parts.join(":");
+                g.body("switch:holes", &format!("f({sw});"));
+                g.body("switch:holes", &format!("I0 = {sw};"));
+                if vi < 3 || thorough {
+                    g.body("switch:nested", &format!("f(1, ({sw}) + 2, -({sw}), ({sw}) ? ({sw}) : 3);"));
+                    g.body("switch:nested", &format!("I0 = (({sw}) : ({sw}) : );"));
+                    g.body("switch:nested", &format!("ins_1(@mask=({sw}), {sw});"));
+                }
+            }
+        }
+    }
+    for ctx in ["while ({}) { }", "times({}) { }", "return {};", "int a = {};", "interrupt[{}]:", "+({}):\n    f();", "if ({}) goto l;", "I0 = sin({});"] {
+        for sw in ["a:b", "a::b", "a:b:", "a:::", "1:2:3:4", "-1:-2::-4"] { g.body("switch:contexts", &ctx.replace("{}", sw)); }
+    }
+    for sw in ["a:b", "a::b:", "-1:2"] { g.push("switch:contexts", format!("meta {{ k: ({sw}), j: [({sw})] }}\nconst int A = {sw};\n")); }
+}
+
+fn ident_of_len(prefix: &str, i: usize, len: usize) -> String {
+    let mut s = format!("{prefix}{i}");
+    while s.len() < len { s.push('_'); s.push_str(&format!("{}", s.len() % 10)); }
+    s.truncate(len.max(prefix.len() + 1));
+    s
+}
+
+fn gen_calls(g: &mut Gen, thorough: bool) {
+    let lens: Vec<usize> = if thorough { vec![1, 2, 3, 5, 8, 12, 15, 20, 30, 50] } else { vec![1, 3, 8, 15, 30] };
+    for n in 0..=12usize { for &len in &lens {
+        let args: Vec<String> = (0..n).map(|i| ident_of_len("a", i, len)).collect();
+        let list = args.join(", ");
+        g.body("call:n-args", &format!("f({list});"));
+        g.body("call:n-args", &format!("ins_23({list});"));
+        g.body("call:n-args", &format!("I0 = g({list}) + h({list});"));
+        if n > 0 {
+            // a nested call in every position
+            for pos in [0, n / 2, n - 1] {
+                let mut a2 = args.clone(); a2[pos] = format!("inner({list})");
+                g.body("call:nested", &format!("f({});", a2.join(", ")));
+                if thorough { let mut a3 = args.clone(); a3[pos] = format!("p(q({list}), r({}))", a2.join(", ")); g.body("call:nested", &format!("I0 = f({});", a3.join(", "))); }
+            }
+            g.body("call:trailing-comma", &format!("f({list},);"));
+            // mixed literal kinds
+            let mixed: Vec<String> = (0..n).map(|i| match i % 6 { 0 => format!("-{}", i + 1), 1 => format!("{}.5", i), 2 => format!("\"{}\"", "s".repeat(len)), 3 => format!("(x{i} : y{i})"), 4 => format!("(c ? x{i} : y{i})"), _ => format!("-z{i}") }).collect();
+            g.body("call:mixed-args", &format!("f({});", mixed.join(", ")));
+        }
+    }}
+    // pseudo-args: every ordered subset, then 0/1/3 positional args
+    let pseudos = ["@mask=0b101", "@blob=\"00ff 0011\"", "@arg0=-4", "@pop=1", "@nargs=3", "@mask=a + b", "@blob=\"\"", "@arg0=(1 : 2)"];
+    for m in 1u32..(1 << 5) {
+        let ps: Vec<&str> = (0..5).filter(|i| m >> i & 1 == 1).map(|i| pseudos[i]).collect();
+        for tail in ["", ", 1", ", 1, x, 2.5"] {
+            g.body("call:pseudo-args", &format!("ins_7({}{tail});", ps.join(", ")));
+        }
+    }
+    for p in &pseudos[5..] { g.body("call:pseudo-args", &format!("ins_7({p}, 1);")); g.body("call:pseudo-args", &format!("I0 = f({p});")); }
+    for n in 1..=6 { let blob = "0123abCD ".repeat(n * 3); g.body("call:pseudo-args", &format!("ins_7(@mask=1, @blob=\"{}\");", blob.trim())); }
+    // sub calls (`@f(...) async`): the grammar accepts them only when a pseudo-arg is present
+    for s in ["@f(@mask=1, 2) async;", "@f(@mask=1) async 5;", "f(@mask=1, 2, 3) async;", "f(@pop=0, x) async -1;", "@f(@mask=1, 2);"] { g.body("call:sub-call", s); }
+}
+
+fn stmt_pool(thorough: bool) -> Vec<&'static str> {
+    let mut v = vec![
+        "f(1);", "I0 = 1;", "l1:", "5:", "+5:", "-5:", "interrupt[1]:", "interrupt[2]:", "{\"EN\"}: f(2);", "goto l1 @ 5;", "if (a) goto l1;",
+        "if (a) { f(3); }", "while (a) { break; }", "{ }", "{ f(4); }", "int a = 1;", "return;", "loop { }", "const int A = 1;", "void g() { }",
+        "{\"H\"}: interrupt[3]:", "times(3) { }", "do { } while (a);", "if (a) { } else { }",
+    ];
+    if thorough { v.extend(["0:", "+0:", "{\"\"}: f(5);", "unless (a) break;", "int b;", "inline void h(int x) { return; }", "x++;", "{ l2: }", "+(a + 1):"]); }
+    v
+}
+
+fn gen_statements(g: &mut Gen, thorough: bool) {
+    for op in ASSIGN_OPS { for v in ["x", "$x", "%x", "REG[3]", "$REG[-3]", "I0", "X", "entry"] {
+        g.body("stmt:assign", &format!("{v} {op} 1;"));
+        g.body("stmt:assign", &format!("{v} {op} -1 + b;"));
+        g.body("stmt:assign", &format!("{v} {op} 0xffffffff;"));
+    }}
+    // declarations: 1..3 declarators, each with or without an initialiser
+    let inits = ["", " = 1", " = -1", " = a + b", " = f(x, y)", " = 0x80000000", " = (1 : 2)", " = c ? 1.5 : -2.5"];
+    for ty in ["int", "float", "var"] {
+        for i in 0..inits.len() {
+            g.body("stmt:decl", &format!("{ty} a{};", inits[i]));
+            for j in 0..inits.len() {
+                g.body("stmt:decl", &format!("{ty} a{}, b{};", inits[i], inits[j]));
+                if thorough || (i + j) % 3 == 0 { for k in [0, 2, 4] { g.body("stmt:decl", &format!("{ty} a{}, bb{}, ccc{};", inits[i], inits[j], inits[k])); } }
+            }
+        }
+    }
+    // labels
+    for t in int_spellings(true) {
+        g.body("stmt:time-label", &format!("{t}:\n    f();"));
+        g.body("stmt:time-label", &format!("-{t}:\n    f();"));
+        g.body("stmt:time-label", &format!("+{t}:\n    f();"));
+        g.body("stmt:goto", &format!("goto l @ {t};"));
+        g.body("stmt:goto", &format!("goto l @ -{t};"));
+        g.body("stmt:goto", &format!("if (a) goto l @ -{t};"));
+        g.push("item:script-number", format!("script {t} s {{ }}\nscript -{t} t {{ }}\n"));
+    }
+    for e in ["(2*3)", "x", "f(1)", "-1", "(-1)", "(a ? b : c)", "f(aaaaaaaaaaaaaaaaaaaa, bbbbbbbbbbbbbbbbbbbbbbb, cccccccccccccccccccccc)", "1.5", "\"s\"", "x++"] {
+        g.body("stmt:rel-time-expr", &format!("+{e}:\n    f();"));
+        g.body("stmt:interrupt-expr", &format!("interrupt[{e}]:\n    f();"));
+        g.body("stmt:interrupt-expr", &format!("f();\ninterrupt[{e}]:\ninterrupt[1 + {e}]:\n    f();"));
+    }
+    for l in ["l", "L", "E", "entry", "default", "case", "script", "mapfile", "_", "a1"] {
+        g.body("stmt:label", &format!("{l}:\n    goto {l};\n    I0 = offsetof({l}) + timeof({l});"));
+    }
+    // difficulty labels on every physical statement kind
+    let phys = ["f(1);", "I0 = 1;", "goto l;", "if (a) goto l;", "if (a) { } else { }", "while (a) { }", "do { } while (a);", "loop { }", "times(2) { }", "{ f(); }", "return;", "return 1;",
+                "int a = 1;", "interrupt[1]:", "x++;", "ins_1(@mask=1);"];
+    for d in ["EN", "", "*-E", "日本", "a\\\"b", "ENHLX4567", "-"] { for p in phys {
+        g.body("stmt:diff-label", &format!("{{\"{d}\"}}: {p}"));
+        if thorough { g.body("stmt:diff-label", &format!("f();\n{{\"{d}\"}}: {p}\n{{\"{d}\"}}: {p}\nl:")); }
+    }}
+    // conditional jumps and chains
+    for kw in ["if", "unless"] { for j in ["goto l", "goto l @ 5", "goto l @ -5", "break"] {
+        g.body("stmt:cond-jump", &format!("loop {{ {kw} (a == b) {j}; }}"));
+        g.body("stmt:cond-jump", &format!("loop {{ {kw} (a) {j}; {j}; }}"));
+    }}
+    for n in 1..=4usize { for kws in 0u32..(1 << n) { for els in [false, true] { for body in ["", "f();", "if (z) { g(); } else { h(); }"] {
+        let mut s = String::new();
+        for i in 0..n {
+            if i > 0 { s.push_str(" else "); }
+            s.push_str(&format!("{} (c{i}) {{ {body} }}", if kws >> i & 1 == 1 { "unless" } else { "if" }));
+        }
+        if els { s.push_str(&format!(" else {{ {body} }}")); }
+        if n == 4 && !thorough && !body.is_empty() { continue; }
+        g.body("stmt:cond-chain", &s);
+    }}}}
+    // loops
+    let bodies = ["", "f();", "loop { break; }", "loop { if (a) break; }", "l:", "5:\n f();", "loop { break; }", "while (b) { times(2) { do { } while (c); } }", "int q = 1;", "{ }"];
+    for b in bodies {
+        for head in ["while (a) {{ {} }}", "do {{ {} }} while (a);", "times(3) {{ {} }}", "times(I0 = 3) {{ {} }}", "times($REG[3] = a + 1) {{ {} }}", "loop {{ {} }}", "{{ {} }}", "{{ {{ {} }} }}", "{{ {{ {{ {{ {} }} }} }} }}"] {
+            g.body("stmt:loops-blocks", &head.replace("{{", "{").replace("}}", "}").replace("{}", b));
+        }
+    }
+    for r in ["return;", "return 1;", "return -1;", "return a + b;", "return (a : b);", "return c ? 1 : 2;", "return f(1, 2);", "return \"s\";"] { g.body("stmt:return", r); }
+    // statement sequences (blank-line and label suppression logic in the printer)
+    let pool = stmt_pool(thorough);
+    for a in &pool { for b in &pool {
+        g.body("stmt:sequence2", &format!("{a}\n    {b}"));
+        if thorough { for c in &pool { g.body("stmt:sequence3", &format!("{a}\n    {b}\n    {c}")); } }
+    }}
+    if !thorough {
+        for (i, a) in pool.iter().enumerate() { for (j, b) in pool.iter().enumerate() { for (k, c) in pool.iter().enumerate() {
+            if (i + 2 * j + 3 * k) % 5 == 0 { g.body("stmt:sequence3", &format!("{a}\n    {b}\n    {c}")); }
+        }}}
+    }
+    // the same sequences nested in a block / loop body / function
+    for a in &pool { for b in &pool {
+        if !thorough && (a.len() + b.len()) % 3 != 0 { continue; }
+        g.body("stmt:sequence-nested", &format!("while (w) {{ {a}\n {b} }}"));
+        g.push("stmt:sequence-nested", format!("void fn() {{ {a}\n {b} }}\n"));
+    }}
+}
+
+fn meta_shapes(depth: usize, breadth: usize, kind: usize, scalar: &dyn Fn(usize) -> String) -> String {
+    // kind: 0 object, 1 array, 2 variant, 3 alternating
+    if depth == 0 { return scalar(breadth); }
+    let k = if kind == 3 { depth % 3 } else { kind };
+    let child = |i: usize| meta_shapes(depth - 1, breadth, kind, &|j| scalar(i * 7 + j));
+    match k {
+        0 => format!("{{{}}}", (0..breadth).map(|i| format!("key{i}: {}", child(i))).collect::<Vec<_>>().join(", ")),
+        1 => format!("[{}]", (0..breadth).map(|i| child(i)).collect::<Vec<_>>().join(", ")),
+        _ => format!("Name{depth} {{{}}}", (0..breadth).map(|i| format!("{}: {}", i * 3, child(i))).collect::<Vec<_>>().join(", ")),
+    }
+}
+
+fn gen_items(g: &mut Gen, thorough: bool) {
+    // functions
+    let params = ["int a", "float b", "var c", "int", "float", "int dddddddddddddddddddd", "float eeeeeeeeeeeeeeeeeeeeeeeeeeeeee", "var ffffffffffffffffffffffffffffffffffffffff"];
+    for q in ["", "const ", "inline "] { for ty in ["void", "int", "float", "string"] { for n in 0..=params.len() {
+        let ps = params[..n].join(", ");
+        for body in [";", " { }", " { return; }"] {
+            if n > 4 && !thorough && body != " { }" { continue; }
+            g.push("item:func", format!("{q}{ty} func_{n}({ps}){body}\n"));
+        }
+        if n > 0 { g.push("item:func", format!("{q}{ty} f({ps},) {{ int z = a; }}\n")); }
+    }}}
+    for name in ["main", "entry", "script", "mapfile", "default", "case", "anim", "ecli", "E", "X4"] {
+        g.push("item:names", format!("script {name} {{ }}\nvoid {name}();\nconst int {name} = 1;\n"));
+    }
+    // const items
+    for ty in ["int", "float", "string"] { for vals in [vec!["1"], vec!["-1", "2"], vec!["a + b", "-1.5", "\"s\""], vec!["0xffffffff", "(1 : 2)", "c ? 1 : 2", "f(1)"]] {
+        let decl = vals.iter().enumerate().map(|(i, v)| format!("C{i} = {v}")).collect::<Vec<_>>().join(", ");
+        g.push("item:const", format!("const {ty} {decl};\n"));
+        g.body("item:const", &format!("const {ty} {decl};\n    f();"));
+    }}
+    // pragmas
+    for s in string_spellings(thorough) {
+        g.push("item:pragma", format!("#pragma mapfile {s}\nscript s {{ }}\n"));
+        g.push("item:pragma", format!("script s {{ }}\n#pragma image_source {s}\n#pragma mapfile {s}\nscript t {{ }}\n#pragma image_source \"b\"\n"));
+    }
+    g.push("item:pragma", "#pragma mapfile \"a\"\n".into());
+    g.push("item:pragma", "#pragma image_source \"a\"\n#pragma image_source \"b\"\n".into());
+    g.push("item:empty", "".into());
+    g.push("item:empty", "// only a comment\n".into());
+    // item sequences
+    let items = ["script a { }", "void f() { }", "void g();", "const int A = 1;", "meta { k: 1 }", "entry { k: 1 }", "#pragma mapfile \"m\"", "script 3 b { f(); }", "const float B = 1.0, C = 2.0;"];
+    for a in items { for b in items { 
+        g.push("item:sequence", format!("{a}\n{b}\n"));
+        for c in items { if thorough || (a.len() + b.len() + c.len()) % 4 == 0 { g.push("item:sequence", format!("{a}\n{b}\n{c}\n")); } }
+    }}
+    // metas: nested 1..4 deep
+    let scalars: Vec<(&str, Box<dyn Fn(usize) -> String>)> = vec![
+        ("ints", Box::new(|i| format!("{}", i * 1000))),
+        ("neg", Box::new(|i| if i % 2 == 0 { format!("-{}", i + 1) } else { format!("-{}.5", i) })),
+        ("strings", Box::new(|i| format!("\"{}\"", "str".repeat(i % 5)))),
+        ("exprs", Box::new(|i| format!("a{i} + b * {i}"))),
+        ("wrap", Box::new(|i| if i % 2 == 0 { "0xffffffff".to_string() } else { "!(X)".to_string() })),
+    ];
+    for kw in ["meta", "entry"] { for depth in 1..=4usize { for breadth in [0usize, 1, 2, 3, 5] { for kind in 0..4usize { for (sname, sc) in &scalars {
+        if depth == 4 && breadth == 5 { continue; }
+        if !thorough && (kw == "entry") && depth > 2 { continue; }
+        let m = meta_shapes(depth, breadth, kind, sc.as_ref());
+        g.push(&format!("meta:nested:{sname}"), format!("{kw} {{ top: {m} }}\n"));
+    }}}}}
+    for n in 0..=(if thorough { 40 } else { 24 }) {
+        let arr: Vec<String> = (0..n).map(|i| format!("{}", i * 37)).collect();
+        g.push("meta:array-length", format!("meta {{ a: [{}], b: {{ c: [{}] }} }}\n", arr.join(", "), arr.join(", ")));
+        let arr2: Vec<String> = (0..n).map(|i| format!("[{i}, {}.0, \"{}\"]", i + 1, "x".repeat(i))).collect();
+        g.push("meta:array-length", format!("entry {{ rows: [{}] }}\n", arr2.join(", ")));
+    }
+    // numeric keys, variants with and without the colon, contextual keywords as keys, trailing commas
+    for k in ["0", "5", "007", "0x10", "0b11", "2147483647", "2147483648", "4294967295", "0xffffffff", "0x80000000"] {
+        g.push("meta:numeric-key", format!("meta {{ {k}: 1 }}\n"));
+        g.push("meta:numeric-key", format!("entry {{ scripts: {{ {k}: {{ {k}: v {{ {k}: 2 }} }} }} }}\n"));
+    }
+    for s in ["meta { v: name { a: 1 } }", "meta { v: name: { a: 1 } }", "meta { v: name {} }", "meta { entry: 1, script: 2, mapfile: 3, default: 4, case: 5, anim: 6, ecli: 7 }", "meta { a: 1, }", "meta { a: [1, 2,], }", "meta { }", "meta { a: [], b: {}, c: [[]], d: [{}], e: x {} }",
+              "entry { sprites: { sprite0: {id: 0, x: 0.0, y: 0.0, w: 512.0, h: 480.0}, sprite1: {x: 1.0, y: 1.0, w: 2.0, h: 2.0} }, path: \"subdir/file.png\", has_data: false, img_format: FORMAT_ARGB_8888 }",
+              "meta { a: b, c: d.e, f: g(1), h: -i, j: k + 1, l: (m : n), o: p ? 1 : 2, q: offsetof(r), s: $t, u: REG[1] }"] {
+        g.push("meta:syntax", format!("{s}\n"));
+    }
+}
+
+/// E-DFS over an expression/statement grammar: every tree with at most `bound` non-default choices.
+fn gen_edfs(g: &mut Gen, thorough: bool) {
+    fn expr(ch: &mut Chooser, depth: u32, no_colon: bool) -> String {
+        if depth == 0 { return ["a", "1", "-1", "X", "1.5", "\"s\""][ch.pick(6)].to_string(); }
+        match ch.pick(16) {
+            0 => "a".into(),
+            1 => "7".into(),
+            2 => "0xffffffff".into(),
+            3 => "2.5".into(),
+            4 => format!("{} {} {}", expr_p(ch, depth - 1), BINOPS[ch.pick(BINOPS.len())], expr_p(ch, depth - 1)),
+            5 => format!("{}({})", PREFIX_OPS[ch.pick(3)], expr(ch, depth - 1, false)),
+            6 => format!("{}({})", FUNC_OPS[ch.pick(FUNC_OPS.len())], expr(ch, depth - 1, false)),
+            7 => { let e = format!("{} ? {} : {}", expr_p(ch, depth - 1), expr_p(ch, depth - 1), expr_p(ch, depth - 1)); if no_colon { format!("({e})") } else { e } },
+            8 => {
+                let n = 2 + ch.pick(3);
+                let mut parts = vec![expr_p(ch, depth - 1)];
+                for _ in 1..n { parts.push(if ch.pick(2) == 1 { String::new() } else { expr_p(ch, depth - 1) }); }
+                let e = parts.join(" : "); if no_colon { format!("({e})") } else { e }
+            },
+            9 => { let n = ch.pick(4); let args: Vec<String> = (0..n).map(|_| expr(ch, depth - 1, false)).collect(); format!("f({})", args.join(", ")) },
+            10 => format!("ins_9(@mask={}, {})", expr(ch, depth - 1, false), expr(ch, depth - 1, false)),
+            11 => ["x++", "--x", "$x", "%REG[2]", "offsetof(l)", "Foo.Bar"][ch.pick(6)].to_string(),
+            12 => "\"q\\\"\"".into(),
+            13 => "X".into(),
+            14 => "-x".into(),
+            _ => "!x".into(),
+        }
+    }
+    // an operand position: anything with an operator gets parentheses in the source (the AST has no paren nodes)
+    fn expr_p(ch: &mut Chooser, depth: u32) -> String {
+        let e = expr(ch, depth, true);
+        if e.contains(' ') || e.starts_with('-') || e.starts_with('!') || e.starts_with('~') { format!("({e})") } else { e }
+    }
+    fn stmt(ch: &mut Chooser, depth: u32) -> String {
+        match ch.pick(12) {
+            0 => format!("I0 = {};", expr(ch, 2, false)),
+            1 => format!("f({});", expr(ch, 2, false)),
+            2 => format!("if ({}) {{ {} }}", expr(ch, 1, false), if depth > 0 { stmt(ch, depth - 1) } else { String::new() }),
+            3 => format!("if ({}) {{ {} }} else {{ {} }}", expr(ch, 1, false), if depth > 0 { stmt(ch, depth - 1) } else { String::new() }, if depth > 0 { stmt(ch, depth - 1) } else { String::new() }),
+            4 => format!("while ({}) {{ {} }}", expr(ch, 1, false), if depth > 0 { stmt(ch, depth - 1) } else { String::new() }),
+            5 => format!("times({}) {{ {} }}", expr(ch, 1, false), if depth > 0 { stmt(ch, depth - 1) } else { String::new() }),
+            6 => format!("int v = {};", expr(ch, 2, false)),
+            7 => format!("+{}:", expr_p(ch, 1)),
+            8 => format!("interrupt[{}]:", expr(ch, 1, false)),
+            9 => format!("{{\"EN\"}}: g({});", expr(ch, 1, false)),
+            10 => format!("return {};", expr(ch, 2, false)),
+            _ => format!("{{ {} {} }}", if depth > 0 { stmt(ch, depth - 1) } else { String::new() }, if depth > 0 { stmt(ch, depth - 1) } else { String::new() }),
+        }
+    }
+    let (b_expr, b_stmt, cap) = if thorough { (4, 4, 400_000) } else { (3, 3, 30_000) };
+    let mut texts: Vec<(&'static str, String)> = vec![];
+    explore_dfs(b_expr, cap, &|ch| format!("I0 = {};\n    f({}, z);", expr(ch, 3, false), expr(ch, 2, false)), &mut |_, t| texts.push(("edfs:expr", t)));
+    explore_dfs(b_stmt, cap, &|ch| format!("{}\n    {}", stmt(ch, 2), stmt(ch, 1)), &mut |_, t| texts.push(("edfs:stmt", t)));
+    for (c, t) in texts { g.body(c, &t); }
+}
+
+pub fn gen_p(thorough: bool) -> Vec<PCase> {
+    let mut g = Gen { out: vec![], seen: BTreeSet::new() };
+    gen_atoms_in_contexts(&mut g, thorough);
+    gen_unops(&mut g, thorough);
+    gen_binops(&mut g, thorough);
+    gen_ternary_switch(&mut g, thorough);
+    gen_calls(&mut g, thorough);
+    gen_statements(&mut g, thorough);
+    gen_items(&mut g, thorough);
+    gen_edfs(&mut g, thorough);
+    g.out
+}
+
+// =============================================================================================
+// (D) decompiler-produced ASTs
+
+#[derive(Clone)]
+pub struct DCase { class: String, kind: Kind, game: &'static str, mapfile: String, source: String, nan: bool }
+
+const ANM_HEAD: &str = r#"entry {
+    path: "subdir/file.png",
+    has_data: false,
+    img_width: 512,
+    img_height: 512,
+    img_format: 3,
+    offset_x: 0,
+    offset_y: 0,
+    colorkey: 0,
+    memory_priority: 0,
+    low_res_scale: false,
+    sprites: {
+        sprite0: {id: 0, x: 0.0, y: 0.0, w: 512.0, h: 480.0},
+    },
+}
+"#;
+
+const ANM_MAP: &str = r#"!anmmap
+!ins_signatures
+2000 S
+2001 U
+2002 C
+2003 S(hex)
+2004 s--
+2005 u--
+2006 b---
+2007 c---
+2008 S(enum="bool")
+2009 S(enum="TestEnum")
+2010 n
+2011 N
+2012 f
+2013 z(bs=4)
+2014 m(bs=4;mask=0x77,0x7,0x10)
+2015 SfC
+2016 U(hex)
+2017 s(hex)--
+2018 b(hex)---
+2019 SSSSSSSSSSSS
+2020 SS
+2021 SS
+2022 SS
+2023 ff
+2024 ff
+2025 SSS
+2026 SSS
+2027 SS
+2028 SS
+2029 ff
+2030 fff
+2031 ot
+2032 SSot
+2033 Sot
+2034 ffffffffffff
+!ins_intrinsics
+2020 UnOp(op="-"; type="int")
+2021 UnOp(op="~"; type="int")
+2022 UnOp(op="!"; type="int")
+2023 UnOp(op="sin"; type="float")
+2024 UnOp(op="-"; type="float")
+2025 BinOp(op="+"; type="int")
+2026 BinOp(op="-"; type="int")
+2027 AssignOp(op="="; type="int")
+2028 AssignOp(op="-="; type="int")
+2029 AssignOp(op="="; type="float")
+2030 BinOp(op="*"; type="float")
+2031 Jmp()
+2032 CondJmp(op="=="; type="int")
+2033 CountJmp(op="!=")
+!enum(name="TestEnum")
+0 Zero
+1 X
+20 Red
+-1 Minus
+!gvar_names
+10000 X
+10001 E4
+10002 Hello
+10004 Z
+!gvar_types
+10000 $
+10001 $
+10002 $
+10004 %
+"#;
+
+fn hex_le(bytes: &[u8]) -> String { bytes.iter().map(|b| format!("{b:02x}")).collect() }
+
+fn anm_case(class: &str, body: &str, nan: bool) -> DCase {
+    DCase { class: class.into(), kind: Kind::Anm, game: "th12", mapfile: ANM_MAP.into(), source: format!("{ANM_HEAD}script script0 {{\n{body}\n}}\n"), nan }
+}
+
+pub fn float_class_bits() -> Vec<(u32, &'static str)> {
+    vec![
+        (0x0000_0000, "zero"), (0x8000_0000, "neg-zero"), (0x0000_0001, "min-subnormal"), (0x007f_ffff, "max-subnormal"), (0x8000_0001, "neg-min-subnormal"),
+        (0x0080_0000, "min-normal"), (0x7f7f_ffff, "max-normal"), (0xff7f_ffff, "neg-max-normal"), (0x7f80_0000, "inf"), (0xff80_0000, "neg-inf"),
+        (0x7fc0_0000, "nan-canonical"), (0x7fc0_0001, "nan-payload"), (0xffc0_0000, "nan-negative"), (0x7f80_0001, "nan-signalling"), (0xffff_ffff, "nan-all-ones"),
+        (0x3f80_0000, "one"), (0x3f80_0001, "one-plus-ulp"), (0x3f7f_ffff, "one-minus-ulp"), (0xbf80_0000, "neg-one"), (0x3dcc_cccd, "tenth"), (0x4b80_0001, "big-odd"), (0x4f00_0000, "2^31"),
+        (0x461c_4000, "10000.0 (register number)"), (0xc61c_4000, "-10000.0"),
+    ]
+}
+
+fn gen_d(thorough: bool) -> Vec<DCase> {
+    let mut v: Vec<DCase> = vec![];
+    let i32s: Vec<u32> = vec![0, 1, 2, 20, 0x7f, 0xff, 0x100, 10000, 0x7fff_ffff, 0x8000_0000, 0x8000_0001, 0xffff_fffe, 0xffff_ffff];
+    for (op, name) in [(2000, "S"), (2001, "U"), (2002, "C"), (2003, "S(hex)"), (2008, "S(enum=bool)"), (2009, "S(enum=TestEnum)"), (2010, "n"), (2011, "N"), (2016, "U(hex)")] {
+        for &x in &i32s {
+            v.push(anm_case(&format!("int:{name}"), &format!("    ins_{op}(@blob=\"{}\");", hex_le(&x.to_le_bytes())), false));
+            // the same value read as a register (mask bit set)
+            v.push(anm_case(&format!("int-as-register:{name}"), &format!("    ins_{op}(@mask=1, @blob=\"{}\");", hex_le(&x.to_le_bytes())), false));
+        }
+    }
+    for (op, name) in [(2004, "s"), (2005, "u"), (2017, "s(hex)")] { for x in [0u16, 1, 0x7fff, 0x8000, 0xffff] {
+        v.push(anm_case(&format!("int:{name}"), &format!("    ins_{op}(@blob=\"{}0000\");", hex_le(&x.to_le_bytes())), false));
+    }}
+    for (op, name) in [(2006, "b"), (2007, "c"), (2018, "b(hex)")] { for x in [0u8, 1, 0x7f, 0x80, 0xff] {
+        v.push(anm_case(&format!("int:{name}"), &format!("    ins_{op}(@blob=\"{x:02x}000000\");"), false));
+    }}
+    for (bits, cls) in float_class_bits() {
+        let nan = f32::from_bits(bits).is_nan();
+        v.push(anm_case(&format!("float:{cls}"), &format!("    ins_2012(@blob=\"{}\");", hex_le(&bits.to_le_bytes())), nan));
+        v.push(anm_case(&format!("float-as-register:{cls}"), &format!("    ins_2012(@mask=1, @blob=\"{}\");", hex_le(&bits.to_le_bytes())), false));
+        v.push(anm_case(&format!("float-in-SfC:{cls}"), &format!("    ins_2015(@blob=\"ffffffff {} 80000000\");", hex_le(&bits.to_le_bytes())), nan));
+        // intrinsics with this operand:  Z = sin(x);  Z = -(x);  Z = x;  Z = x * x;
+        for op in [2023, 2024, 2029] {
+            v.push(anm_case(&format!("float-intrinsic-{op}:{cls}"), &format!("    ins_{op}(@mask=1, @blob=\"00401c46 {}\");", hex_le(&bits.to_le_bytes())), nan));
+        }
+        v.push(anm_case(&format!("float-intrinsic-2030:{cls}"), &format!("    ins_2030(@mask=1, @blob=\"00401c46 {} {}\");", hex_le(&bits.to_le_bytes()), hex_le(&bits.to_le_bytes())), nan));
+    }
+    // int intrinsics:  X = -(v);  X = ~(v);  X = !(v);  X = a + b;  X = a - b;  X = v;  X -= v;  with literal and register operands
+    let ops: Vec<(u32, &str)> = vec![(3, "lit 3"), (4, "lit 4"), (0xffff_fffd, "lit -3"), (0x8000_0000, "lit MIN"), (0, "lit 0")];
+    for op in [2020, 2021, 2022, 2027, 2028] {
+        for (x, name) in &ops {
+            v.push(anm_case(&format!("int-intrinsic-{op}:{name}"), &format!("    ins_{op}(@mask=1, @blob=\"10270000 {}\");", hex_le(&x.to_le_bytes())), false));
+        }
+        for reg in [10000u32, 10001, 10002, 10003, 9999] {
+            v.push(anm_case(&format!("int-intrinsic-{op}:reg"), &format!("    ins_{op}(@mask=3, @blob=\"10270000 {}\");", hex_le(&reg.to_le_bytes())), false));
+        }
+    }
+    for op in [2025, 2026] { for (a, _) in &ops { for (b, _) in &ops {
+        v.push(anm_case(&format!("int-intrinsic-{op}:lit-lit"), &format!("    ins_{op}(@mask=1, @blob=\"10270000 {} {}\");", hex_le(&a.to_le_bytes()), hex_le(&b.to_le_bytes())), false));
+    }}}
+    // jumps: labels, negative and positive times, conditional jumps with negative literals
+    for t in [0i32, 5, -5, 100] { for (a, _) in &ops {
+        v.push(anm_case("jump-intrinsics", &format!("{t}:\n    ins_2032(@mask=0, @blob=\"{} fdffffff 00000000 {}\");\n    ins_2031(@blob=\"00000000 {}\");\n    ins_2033(@mask=1, @blob=\"10270000 00000000 {}\");",
+            hex_le(&a.to_le_bytes()), hex_le(&t.to_le_bytes()), hex_le(&t.to_le_bytes()), hex_le(&t.to_le_bytes())), false));
+    }}
+    // time labels
+    for times in [vec![0, 0], vec![5, 5, 10], vec![-5, -1, 0, 3], vec![-32768, 32767], vec![10, 5], vec![0, 300, 300, 301]] {
+        let body: String = times.iter().map(|t| format!("{t}:\n    ins_2000(1);\n")).collect();
+        v.push(anm_case("time-labels", &body, false));
+    }
+    // strings
+    for s in string_spellings(thorough) {
+        let class = if s.contains("\\0") { "string-with-nul" } else { "string" };
+        v.push(anm_case(&format!("{class}:z"), &format!("    ins_2013({s});"), false));
+        v.push(anm_case(&format!("{class}:m"), &format!("    ins_2014({s});"), false));
+    }
+    // many arguments of growing magnitude (inline-vs-block layout of decompiled calls)
+    for n in [1u32, 1000, 1_000_000, 0x7fff_ffff, 0xffff_ffff] {
+        let blob: Vec<String> = (0..12u32).map(|i| hex_le(&(n.wrapping_mul(i + 1)).to_le_bytes())).collect();
+        v.push(anm_case("twelve-ints", &format!("    ins_2019(@blob=\"{}\");", blob.join(" ")), false));
+        let fb: Vec<String> = (0..12u32).map(|i| hex_le(&((n as f32) * (i as f32 - 5.5) / 7.0).to_bits().to_le_bytes())).collect();
+        v.push(anm_case("twelve-floats", &format!("    ins_2034(@blob=\"{}\");", fb.join(" ")), false));
+    }
+    // unknown instruction -> @blob pseudo-arg in the decompiled text; masks on it
+    for len in [0usize, 1, 2, 5, 12, 40] { for mask in [0u32, 1, 0xffff] {
+        let blob: Vec<String> = (0..len).map(|i| format!("{:08x}", (i as u32).wrapping_mul(0x01234567))).collect();
+        v.push(anm_case("unknown-instruction-blob", &format!("    ins_2999(@mask={mask}, @blob=\"{}\");", blob.join(" ")), false));
+    }}
+    v
+}
+
+struct DEval { widths_done: u64, comparisons: u64, changes_with_width: bool, t99: String, fails: Vec<Fail>, outcomes: Vec<String>, discarded: Option<String>, reprint_differs: bool, warned: bool }
+
+fn eval_d(c: &DCase, widths: &[usize]) -> DEval {
+    let mut ev = DEval { widths_done: 0, comparisons: 0, changes_with_width: false, t99: String::new(), fails: vec![], outcomes: vec![], discarded: None, reprint_differs: false, warned: false };
+    let tool = Tool::new(c.kind, c.game.parse::<truth::Game>().expect("game"));
+    let copts = CompileOpts { mapfiles: vec![&c.mapfile], ..Default::default() };
+    let b = drive::compile(tool, c.source.as_bytes(), &copts);
+    let Some(bytes) = b.bytes else {
+        ev.discarded = Some(format!("d-source-rejected: {}", b.panic.map(|p| p.text).unwrap_or_else(|| first_error_line(&b.diag))));
+        return ev;
+    };
+    let mut push_fail = |ev: &mut DEval, kind: &str, w: usize, printed: Option<&str>, note: String| {
+        ev.fails.push(Fail { kind: kind.into(), class: c.class.clone(), width: w, printed: printed.map(|s| s.to_string()), note });
+    };
+    let mut ws: Vec<usize> = vec![99];
+    ws.extend(widths.iter().copied().filter(|&w| w != 99));
+    let mut c99: Option<String> = None;
+    let mut texts: BTreeSet<String> = BTreeSet::new();
+    for w in ws {
+        ev.widths_done += 1;
+        let d = drive::decompile(tool, &bytes, &DecompOpts { width: w, mapfiles: vec![&c.mapfile], ..Default::default() });
+        let Some(t) = d.text else {
+            let (kind, note) = match d.panic { Some(p) => ("D-print-or-decompile-panics", p.text), None => ("D-decompile-fails", first_error_line(&d.diag)) };
+            push_fail(&mut ev, kind, w, None, note); continue;
+        };
+        if d.diag.lines().any(|l| l.starts_with("warning")) { ev.warned = true; }
+        texts.insert(t.clone());
+        let a = match parse_file(&t) {
+            Ok(a) => a,
+            Err(ParseErr::Rejected(dg)) => { push_fail(&mut ev, "D-reparse-fails", w, Some(&t), first_error_line(&dg)); continue; },
+            Err(ParseErr::Panicked(p)) => { push_fail(&mut ev, "D-reparse-panics", w, Some(&t), p.text); continue; },
+        };
+        let (cw, _) = canon_file(&a, true);
+        if w == 99 {
+            ev.t99 = t.clone();
+            c99 = Some(cw);
+            if let Ok(t2) = print_file(&a, 99) { if t2 != t { ev.reprint_differs = true; } }
+            // recompile: the same bytes must come back (literal bits preserved), unless the decompiler warned about a loss
+            let r = drive::compile(tool, t.as_bytes(), &copts);
+            ev.comparisons += 1;
+            match r.bytes {
+                None => push_fail(&mut ev, "D-recompile-fails", w, Some(&t), r.panic.map(|p| p.text).unwrap_or_else(|| first_error_line(&r.diag))),
+                Some(b2) if b2 != bytes => {
+                    if ev.warned { ev.outcomes.push("bytes-differ-after-decompiler-warning".into()); }
+                    else if c.nan { push_fail(&mut ev, "nan-bits-lost", w, Some(&t), first_byte_diff(&bytes, &b2)); }
+                    else { push_fail(&mut ev, "D-bytes-differ", w, Some(&t), first_byte_diff(&bytes, &b2)); }
+                },
+                Some(_) => ev.outcomes.push("recompiles-to-same-bytes".into()),
+            }
+        } else {
+            ev.comparisons += 1;
+            match &c99 {
+                Some(c99) if *c99 == cw => ev.outcomes.push("same-ast-as-width-99".into()),
+                Some(c99) => push_fail(&mut ev, "D-width-ast-differs", w, Some(&t), first_diff(c99, &cw)),
+                None => ev.outcomes.push("no-width-99-reference".into()),
+            }
+        }
+    }
+    ev.changes_with_width = texts.len() > 1;
+    ev
+}
+
+fn first_byte_diff(a: &[u8], b: &[u8]) -> String {
+    if a.len() != b.len() { return format!("length {} -> {}", a.len(), b.len()); }
+    let i = a.iter().zip(b).position(|(x, y)| x != y).unwrap_or(0);
+    let s = i & !3;
+    format!("first difference at byte {i:#x}: original {} recompiled {}", hex_le(&a[s..(s + 8).min(a.len())]), hex_le(&b[s..(s + 8).min(b.len())]))
+}
+
+fn d_detail(c: &DCase, f: &Fail, widths: &[usize]) -> Value {
+    json!({"source": "D", "class": c.class, "tool": format!("{:?}", c.kind), "game": c.game, "mapfile": c.mapfile, "compile_source": c.source, "nan": c.nan,
+           "width": f.width, "failing_widths": widths, "kind": f.kind, "printed": f.printed, "note": f.note})
+}
+
+fn run_d(rep: &mut Report, acc: &mut Acc, families: &mut BTreeMap<String, u64>, thorough: bool, deadline: std::time::Instant, capped: &mut bool) -> Value {
+    let cases = gen_d(thorough);
+    rep.transitions += cases.len() as u64;
+    for c in &cases { *families.entry(format!("D:{}", c.class.split(':').next().unwrap_or(""))).or_insert(0) += 1; }
+    let dump = std::env::var("C08_DUMP").is_ok();
+    let all_widths: Vec<usize> = (1..=200).collect();
+    let results = par_map(&cases, Some(deadline), |i, c| {
+        let widths: &[usize] = if thorough && i % 4 == 0 { &all_widths } else { &QUICK_WIDTHS };
+        eval_d(c, widths)
+    });
+    let mut distinct: BTreeSet<String> = BTreeSet::new();
+    let (mut reprint_differs, mut warned) = (0u64, 0u64);
+    let mut rejected: Vec<Value> = vec![];
+    for (i, r) in results.into_iter().enumerate() {
+        let Some(ev) = r else { *capped = true; continue; };
+        let c = &cases[i];
+        if let Some(why) = &ev.discarded {
+            rep.discard(&format!("d-source-rejected:{}", c.class.split(':').next().unwrap_or("")));
+            if rejected.len() < 30 { rejected.push(json!({"class": c.class, "why": why, "source": c.source})); }
+            continue;
+        }
+        if dump { println!("=== {} ===\n{}", c.class, ev.t99); }
+        if distinct.insert(ev.t99.clone()) { rep.states += 1; rep.nontrivial += 1; } // every D case carries a boundary literal by construction
+        rep.evaluations += ev.widths_done;
+        rep.traces_validated += ev.comparisons;
+        if ev.reprint_differs { reprint_differs += 1; }
+        if ev.warned { warned += 1; }
+        for o in &ev.outcomes { rep.outcome(&format!("D:{o}")); }
+        if i % 61 == 0 { rep.sample(json!({"source": "D", "class": c.class, "compile_source_body": c.source.rsplit("script script0").next(), "printed_at_99": ev.t99.rsplit("script script0").next()})); }
+        let mut by_sig: BTreeMap<String, Vec<&Fail>> = BTreeMap::new();
+        for f in &ev.fails {
+            let sig = if f.kind == "nan-bits-lost" { "C08:nan-bits-lost".to_string() } else { format!("C08:{}:{}", f.kind, f.class.split(':').next().unwrap_or("")) };
+            rep.outcome(&format!("D:{}", &sig[4..]));
+            by_sig.entry(sig).or_default().push(f);
+        }
+        for (sig, fs) in by_sig {
+            let f = fs.iter().find(|f| f.width == 99).unwrap_or(&fs[0]);
+            let widths: Vec<usize> = fs.iter().map(|f| f.width).collect();
+            *acc.failure_counts.entry(sig.clone()).or_insert(0) += fs.len() as u64 - 1;
+            acc.add(sig, c.source.len(), d_detail(c, f, &widths));
+        }
+    }
+    json!({"binaries": cases.len(), "distinct_decompiled_texts": distinct.len(), "texts_whose_reprint_after_reparse_differs (information only: int display formats are not kept by the parser)": reprint_differs,
+           "binaries_with_decompiler_warnings": warned, "rejected_sources": rejected})
+}
+
+fn replay_d(detail: &Value) -> i32 {
+    let kind = match detail["tool"].as_str() { Some("Anm") => Kind::Anm, Some("Ecl") => Kind::Ecl, Some("Msg") => Kind::Msg, Some("Std") => Kind::Std, _ => { println!("unknown tool"); return 2; } };
+    let game: &'static str = match detail["game"].as_str() { Some("th12") => "th12", Some("th08") => "th08", Some("th07") => "th07", Some("th06") => "th06", _ => { println!("unknown game"); return 2; } };
+    let c = DCase { class: detail["class"].as_str().unwrap_or("?").into(), kind, game, mapfile: detail["mapfile"].as_str().unwrap_or("").into(), source: detail["compile_source"].as_str().unwrap_or("").into(), nan: detail["nan"].as_bool().unwrap_or(false) };
+    let width = detail["width"].as_u64().unwrap_or(99) as usize;
+    println!("--- source compiled to the binary\n{}\n--- width {width}", c.source);
+    let ev = eval_d(&c, &[width]);
+    if let Some(why) = &ev.discarded { println!("source no longer compiles: {why}"); return 0; }
+    println!("--- decompiled at width 99\n{}", ev.t99);
+    if ev.fails.is_empty() { println!("--- comparison: parses, recompiles to the same bytes, same AST as width 99"); return 0; }
+    for f in &ev.fails { println!("--- FAIL {}:{} at width {}: {}\n{}", f.kind, f.class, f.width, f.note, f.printed.clone().unwrap_or_default()); }
+    1
+}
